@@ -38,6 +38,9 @@ NOTEXC = [int, NotExcBase, KeyboardInterrupt, object]
 SPELL = [tuple, list, set]
 DELAYS = [0, 0.25, 3]
 METHODS = ["get", "set", "delete", "get_many", "incr"]
+# mapping-style access goes through the same retry loop: rc[k] (a successful get that found nothing is a success: it is
+# not invoked again, the caller sees KeyError), rc[k] = v, del rc[k]
+ITEM_FORMS = ["__getitem__", "__getitem__/miss", "__setitem__", "__delitem__"]
 
 
 class Inner:
@@ -49,17 +52,19 @@ class Inner:
         self.n = 0
         self.objs = {}
         self.expect_args = None
+        self.miss = False           # a successful call returns None (a miss)
+        self.loose_kwargs = False   # item access: the wrapper chooses the keyword arguments itself
 
     def _do(self, name, args, kwargs):
         self.n += 1
         o = self.outcomes[self.n - 1] if self.n <= len(self.outcomes) else "ok"
         ea, ek = self.expect_args
         same = (len(args) == len(ea) and all(a is b for a, b in zip(args, ea))
-                and set(kwargs) == set(ek) and all(kwargs[k] is ek[k] for k in ek))
+                and (self.loose_kwargs or (set(kwargs) == set(ek) and all(kwargs[k] is ek[k] for k in ek))))
         self.log.append({"e": "call", "o": o, "id": self.n, "d": "same-args" if same else "changed-args",
                          "m": name})
         if o == "ok":
-            obj = object()
+            obj = None if self.miss else object()
             self.objs[self.n] = obj
             return obj
         exc = CLS[o](f"attempt {self.n}")
@@ -82,7 +87,7 @@ class Inner:
         return self._do("incr", a, k)
 
 
-def execute(RetryingClient, attempts, rf, dnr, outcomes, variant):
+def execute(RetryingClient, attempts, rf, dnr, outcomes, variant, form=None):
     """Run one behaviour against the real class; returns the recorded trace."""
     spell_rf = SPELL[variant % 3]
     spell_dnr = SPELL[(variant // 3) % 3]
@@ -113,14 +118,34 @@ def execute(RetryingClient, attempts, rf, dnr, outcomes, variant):
     args = (object(), object())
     kwargs = {"noreply": object()}
     inner.expect_args = (args, kwargs)
+    if form is not None:
+        inner.loose_kwargs = True
+        inner.miss = form == "__getitem__/miss"
+        inner.expect_args = ((args[0],), {}) if form != "__setitem__" else (args, {})
     try:
-        res = getattr(rc, method)(*args, **kwargs)
+        if form is None:
+            res = getattr(rc, method)(*args, **kwargs)
+        elif form.startswith("__getitem__"):
+            res = rc[args[0]]
+        elif form == "__setitem__":
+            rc[args[0]] = args[1]
+            res = inner.objs.get(inner.n)      # a statement has no result: only that it completed after a success
+        else:
+            del rc[args[0]]
+            res = inner.objs.get(inner.n)
     except Exception as exc:
         ident = [k for k, v in inner.objs.items() if v is exc]
-        log.append({"e": "raise", "o": type(exc).__name__, "id": ident[0] if ident else -1, "d": "delay", "m": ""})
+        if form == "__getitem__/miss" and isinstance(exc, KeyError) and not ident and inner.n in inner.objs \
+                and inner.objs[inner.n] is None:
+            # the successful (empty) answer of the last invocation, handed on as the mapping protocol's KeyError
+            log.append({"e": "ret", "o": "ok", "id": inner.n, "d": "delay", "m": form})
+        else:
+            log.append({"e": "raise", "o": type(exc).__name__, "id": ident[0] if ident else -1, "d": "delay", "m": form or ""})
     else:
         ident = [k for k, v in inner.objs.items() if v is res]
-        log.append({"e": "ret", "o": "ok", "id": ident[0] if ident else -1, "d": "delay", "m": ""})
+        if form == "__getitem__/miss":
+            ident = []          # a miss must surface as KeyError, not as a value
+        log.append({"e": "ret", "o": "ok", "id": ident[-1] if ident else -1, "d": "delay", "m": form or ""})
     finally:
         vclock.sleep_log = None
     return {"h": hdr, "ev": log, "variant": variant}
@@ -177,6 +202,11 @@ CHECK_DEADLOCK FALSE
         for v in range(nvariants):
             variant = (i * 7 + v * 4 + common.seed()) % 90
             t = execute(RetryingClient, b["attempts"], b["rf"], b["dnr"], outcomes, variant)
+            t["expected"] = b["hist"]
+            traces.append(t)
+        if b["final"] != "rejected" and (tier != "quick" or i % 3 == common.seed() % 3):
+            form = ITEM_FORMS[(i // 3 + common.seed()) % len(ITEM_FORMS)]
+            t = execute(RetryingClient, b["attempts"], b["rf"], b["dnr"], outcomes, (i * 7 + common.seed()) % 90, form=form)
             t["expected"] = b["hist"]
             traces.append(t)
         if outcomes:
